@@ -18,6 +18,7 @@ type Frame struct {
 	iters    map[*ssa.BasicBlock]int
 	defers   []deferred
 	havocked bool
+	visits   map[*ssa.BasicBlock]int
 }
 type deferred struct {
 	fn   Value
@@ -63,7 +64,7 @@ type Exec struct {
 	errCodes map[string]uint64
 	errNames map[uint64]string
 	ipdom    map[*ssa.Function]map[*ssa.BasicBlock]*ssa.BasicBlock
-	loopExit map[*ssa.Function]map[*ssa.BasicBlock]bool
+	loopExit map[*ssa.Function]map[*ssa.BasicBlock][]bool
 	liveAt   map[*ssa.BasicBlock]map[ssa.Value]bool
 	solver   *Solver
 
@@ -106,7 +107,7 @@ type SplitReq struct {
 
 func NewExec(prog *ssa.Program) *Exec {
 	return &Exec{prog: prog, globals: map[*ssa.Global]int{}, errCodes: map[string]uint64{}, errNames: map[uint64]string{},
-		ipdom: map[*ssa.Function]map[*ssa.BasicBlock]*ssa.BasicBlock{}, loopExit: map[*ssa.Function]map[*ssa.BasicBlock]bool{},
+		ipdom: map[*ssa.Function]map[*ssa.BasicBlock]*ssa.BasicBlock{}, loopExit: map[*ssa.Function]map[*ssa.BasicBlock][]bool{},
 		liveAt: map[*ssa.BasicBlock]map[ssa.Value]bool{}, funcs: map[string]bool{}, unwind: 2500, maxAlloc: 1 << 16}
 }
 
@@ -114,6 +115,12 @@ func (fr *Frame) clone() *Frame {
 	n := &Frame{fn: fr.fn, regs: make(map[ssa.Value]Value, len(fr.regs)+8), defers: fr.defers, havocked: fr.havocked}
 	for k, v := range fr.regs {
 		n.regs[k] = v
+	}
+	if len(fr.visits) > 0 {
+		n.visits = make(map[*ssa.BasicBlock]int, len(fr.visits))
+		for k, v := range fr.visits {
+			n.visits[k] = v
+		}
 	}
 	if len(fr.iters) > 0 {
 		n.iters = make(map[*ssa.BasicBlock]int, len(fr.iters))
@@ -137,6 +144,10 @@ func (e *Exec) errCode(name string) *Term {
 // ---------- feasibility
 
 func (e *Exec) feasible(s *State, c *Term) bool {
+	return e.feasibleP(s, c, "feas")
+}
+
+func (e *Exec) feasibleP(s *State, c *Term, purpose string) bool {
 	if c.isTrue() {
 		return true
 	}
@@ -144,7 +155,7 @@ func (e *Exec) feasible(s *State, c *Term) bool {
 		return false
 	}
 	e.feasCalls++
-	a := e.solver.Check(Query{asserts: append(append([]*Term(nil), s.pc...), c), tmoMs: 10000, purpose: "feas"})
+	a := e.solver.Check(Query{asserts: append(append([]*Term(nil), s.pc...), c), tmoMs: 10000, purpose: purpose})
 	return a.status != "unsat"
 }
 
@@ -155,7 +166,7 @@ func (e *Exec) feasiblePC(pc []*Term) bool {
 		}
 	}
 	e.feasCalls++
-	a := e.solver.Check(Query{asserts: pc, tmoMs: 10000, purpose: "feas"})
+	a := e.solver.Check(Query{asserts: pc, tmoMs: 10000, purpose: "feas-merge"})
 	return a.status != "unsat"
 }
 
@@ -280,15 +291,149 @@ func (e *Exec) ipdoms(fn *ssa.Function) map[*ssa.BasicBlock]*ssa.BasicBlock {
 			}
 		}
 	}
+	// Blocks without a post-dominator (their arms return) that sit inside a loop: join where the
+	// paths that stay in the innermost loop meet again, treating loop exits as side exits.
+	for _, b := range fn.Blocks {
+		if m[b] != nil || len(b.Succs) < 2 {
+			continue
+		}
+		if j := loopLocalJoin(fn, b); j != nil {
+			m[b] = j
+		}
+	}
 	e.ipdom[fn] = m
 	return m
 }
 
-func (e *Exec) isLoopExit(b *ssa.BasicBlock) bool {
+// loopLocalJoin computes the immediate post-dominator of b in the sub-graph of its innermost
+// natural loop, where edges leaving the loop are dropped and back edges lead to a sink that
+// stands for the loop header.
+func loopLocalJoin(fn *ssa.Function, b *ssa.BasicBlock) *ssa.BasicBlock {
+	var best map[*ssa.BasicBlock]bool
+	var head *ssa.BasicBlock
+	for _, t := range fn.Blocks {
+		for _, h := range t.Succs {
+			if !h.Dominates(t) {
+				continue
+			}
+			body := map[*ssa.BasicBlock]bool{h: true}
+			stack := []*ssa.BasicBlock{t}
+			for len(stack) > 0 {
+				x := stack[len(stack)-1]
+				stack = stack[:len(stack)-1]
+				if body[x] {
+					continue
+				}
+				body[x] = true
+				stack = append(stack, x.Preds...)
+			}
+			if body[b] && (best == nil || len(body) < len(best) || (head == h && len(body) > len(best))) {
+				if head == h {
+					for k := range best {
+						body[k] = true
+					}
+				}
+				best, head = body, h
+			}
+		}
+	}
+	if best == nil {
+		return nil
+	}
+	n := len(fn.Blocks)
+	sink := n
+	succ := make([][]int, n+1)
+	for x := range best {
+		for _, sx := range x.Succs {
+			if !best[sx] {
+				continue
+			}
+			if sx == head {
+				succ[x.Index] = append(succ[x.Index], sink)
+			} else {
+				succ[x.Index] = append(succ[x.Index], sx.Index)
+			}
+		}
+	}
+	// post-dominator sets over the body (iterative)
+	pd := map[int]map[int]bool{}
+	all := map[int]bool{sink: true}
+	for x := range best {
+		all[x.Index] = true
+	}
+	for x := range all {
+		pd[x] = map[int]bool{}
+		if x == sink {
+			pd[x][sink] = true
+			continue
+		}
+		for y := range all {
+			pd[x][y] = true
+		}
+	}
+	for changed := true; changed; {
+		changed = false
+		for x := range all {
+			if x == sink {
+				continue
+			}
+			nw := map[int]bool{}
+			first := true
+			for _, v := range succ[x] {
+				if first {
+					for y := range pd[v] {
+						nw[y] = true
+					}
+					first = false
+				} else {
+					for y := range nw {
+						if !pd[v][y] {
+							delete(nw, y)
+						}
+					}
+				}
+			}
+			if first {
+				// no successor inside the loop: this block only leaves it
+				nw = map[int]bool{}
+			}
+			nw[x] = true
+			if len(nw) != len(pd[x]) {
+				changed = true
+				pd[x] = nw
+			}
+		}
+	}
+	// immediate post-dominator of b: the strict post-dominator that is post-dominated by all others
+	cands := pd[b.Index]
+	for c := range cands {
+		if c == b.Index {
+			continue
+		}
+		ok := true
+		for d := range cands {
+			if d != b.Index && d != c && !pd[c][d] {
+				ok = false
+				break
+			}
+		}
+		if ok {
+			if c == sink {
+				return head
+			}
+			return fn.Blocks[c]
+		}
+	}
+	return nil
+}
+
+// loopExitInfo reports, for a block inside a natural loop with a successor outside
+// of it, which successors leave the loop (nil if b is not such a block).
+func (e *Exec) loopExitInfo(b *ssa.BasicBlock) []bool {
 	fn := b.Parent()
 	m, ok := e.loopExit[fn]
 	if !ok {
-		m = map[*ssa.BasicBlock]bool{}
+		m = map[*ssa.BasicBlock][]bool{}
 		for _, t := range fn.Blocks {
 			for _, h := range t.Succs {
 				if !h.Dominates(t) {
@@ -306,9 +451,12 @@ func (e *Exec) isLoopExit(b *ssa.BasicBlock) bool {
 					stack = append(stack, x.Preds...)
 				}
 				for x := range body {
-					for _, sx := range x.Succs {
+					for k, sx := range x.Succs {
 						if !body[sx] {
-							m[x] = true
+							if m[x] == nil {
+								m[x] = make([]bool, len(x.Succs))
+							}
+							m[x][k] = true
 						}
 					}
 				}
@@ -494,6 +642,17 @@ func (e *Exec) merge(a, b Outcome, n int, live map[ssa.Value]bool) (Outcome, boo
 			}
 			nf.regs[k] = v
 		}
+		if len(a.fr.visits) > 0 || len(b.fr.visits) > 0 {
+			nf.visits = map[*ssa.BasicBlock]int{}
+			for k, v := range a.fr.visits {
+				nf.visits[k] = v
+			}
+			for k, v := range b.fr.visits {
+				if v > nf.visits[k] {
+					nf.visits[k] = v
+				}
+			}
+		}
 		if len(a.fr.iters) > 0 || len(b.fr.iters) > 0 {
 			nf.iters = map[*ssa.BasicBlock]int{}
 			for k, v := range a.fr.iters {
@@ -521,6 +680,15 @@ func (e *Exec) merge(a, b Outcome, n int, live map[ssa.Value]bool) (Outcome, boo
 	}
 	ns.kpID, ns.kpCond = a.st.kpID, a.st.kpCond
 	ns.nchoose = a.st.nchoose
+	if len(a.st.facts) > 0 && len(b.st.facts) > 0 {
+		ns.facts = make(map[int]bool)
+		ns.factOwn = true
+		for k, v := range a.st.facts {
+			if w, ok := b.st.facts[k]; ok && w == v {
+				ns.facts[k] = v
+			}
+		}
+	}
 	// counters: max
 	ns.ctr = a.st.ctr
 	for k, v := range b.st.ctr {
@@ -552,9 +720,14 @@ func (e *Exec) outcomeConflict(a, b Outcome, live map[ssa.Value]bool) bool {
 			return true
 		}
 	}
+	// registers and return values: only structured values (slice extents, aggregates) count;
+	// a plain scalar that differs between two arms is the normal case and merges into an ite
 	if a.fr != nil && b.fr != nil {
 		for k, va := range a.fr.regs {
 			if live != nil && !live[k] {
+				continue
+			}
+			if _, scalar := va.(*Term); scalar {
 				continue
 			}
 			if vb, ok := b.fr.regs[k]; ok && concConflict(va, vb) {
@@ -562,7 +735,15 @@ func (e *Exec) outcomeConflict(a, b Outcome, live map[ssa.Value]bool) bool {
 			}
 		}
 	}
-	return concConflict(TupleV(a.vals), TupleV(b.vals))
+	for i := range a.vals {
+		if _, scalar := a.vals[i].(*Term); scalar || i >= len(b.vals) {
+			continue
+		}
+		if concConflict(a.vals[i], b.vals[i]) {
+			return true
+		}
+	}
+	return false
 }
 
 func (e *Exec) mergeAll(outs []Outcome, n int, live map[ssa.Value]bool) []Outcome {
@@ -612,6 +793,9 @@ func (e *Exec) call(s *State, fn *ssa.Function, args []Value, bind []Value) []Ou
 	e.depth++
 	defer func() { e.depth-- }()
 	e.funcs[fn.String()] = true
+	if debugOn && fn.Name() == "LookupPmtStreamType" {
+		fmt.Fprintf(os.Stderr, "CALL %s(%s) pc=%d\n", fn.Name(), show(args[0].(*Term), 3), len(s.pc))
+	}
 	fr := &Frame{fn: fn, regs: make(map[ssa.Value]Value, 32)}
 	if len(args) != len(fn.Params) {
 		panic(engineErr("arity mismatch calling %s", fn.String()))
@@ -811,18 +995,35 @@ func (e *Exec) runBlock(s *State, fr *Frame, b *ssa.BasicBlock, start int, stop 
 			if c.isFalse() {
 				return append(side, e.goTo(s, fr, b, b.Succs[1], stop)...)
 			}
+			if debugOn && fr.fn.Name() == "parseTables" {
+				fmt.Fprintf(os.Stderr, "IF in %s: %s facts=%d decide=%d\n", fr.fn.Name(), show(c, 4), len(s.facts), s.decide(c, 0))
+			}
+			if d := s.decide(c, 0); d >= 0 && os.Getenv("GOSYM_NOFACTS") == "" {
+				// decided by facts already on the path condition
+				return append(side, e.goTo(s, fr, b, b.Succs[1-d], stop)...)
+			}
 			J := e.ipdoms(fr.fn)[b]
 			n := len(s.pc)
 			var outs []Outcome
-			needCheck := e.isLoopExit(b)
 			conds := []*Term{c, Not(c)}
 			feas := []bool{true, true}
-			if needCheck {
-				feas[0] = e.feasible(s, conds[0])
-				if !feas[0] {
-					feas[1] = true
-				} else {
-					feas[1] = e.feasible(s, conds[1])
+			if exits := e.loopExitInfo(b); exits != nil {
+				// loop-exit test: unrolling stops when staying in the loop is infeasible. The solver is
+				// asked about the continuing arm on the first visit and then on every 4th one.
+				if fr.visits == nil {
+					fr.visits = map[*ssa.BasicBlock]int{}
+				}
+				v := fr.visits[b]
+				fr.visits[b] = v + 1
+				if v%4 == 0 {
+					for k := range conds {
+						if !exits[k] && !e.feasibleP(s, conds[k], "feas-loop:"+fr.fn.Name()) {
+							feas[k] = false
+						}
+					}
+					if !feas[0] && !feas[1] {
+						feas[1] = true
+					}
 				}
 			}
 			if feas[0] != feas[1] {
@@ -1101,7 +1302,7 @@ func (e *Exec) keyMatch(s *State, m MapV, k Value) []keyAlt {
 	}
 	prune := cand <= 12
 	for i, c := range conds {
-		if c.isFalse() || (prune && !e.feasible(s, c)) {
+		if c.isFalse() || (prune && !e.feasibleP(s, c, "feas-key")) {
 			continue
 		}
 		e.forks++
